@@ -250,6 +250,16 @@ structure ReadParams (ρ : Type) where
   root : ρ
   offset : Nat
   length : Nat
+  /-- the caller's `io.Writer`: `none` accepts everything, `some k` fails once more than `k`
+  bytes have been handed to it (a full disk, a closed pipe, a cancelled HTTP response) -/
+  wcap : Option Nat := none
+
+/-- the caller's writer accepted all `n` bytes: a write error surfaces through the `TeeReader` as
+an error of `rpv.ReadFrom` (`rpc.go:499-500`) -/
+def writerAccepts (wcap : Option Nat) (n : Nat) : Bool :=
+  match wcap with
+  | none => true
+  | some k => decide (n ≤ k)
 
 /-- the structural part of `RPCReadSectorRequest.Validate` (`validation.go:42-58`) -/
 def readValid (p : ReadParams ρ) : Bool :=
@@ -270,6 +280,7 @@ def rpcRead (cfg : Cfg) (P : Prims ρ π σ) (prices : Prices) (reqOk : Bool) (p
   let start := p.offset / leafSize                          -- :496
   let stop := (p.offset + p.length + leafSize - 1) / leafSize   -- :497
   let got := pulled (streamOf r.2.2) r.2.1 (leafSize * (stop - start))
+  check (writerAccepts p.wcap got.length)                   -- ReadFrom: the tee's write to w failed (:499-500)
   check (got.length % leafSize == 0)                        -- ReadFrom: "not an integer multiple of leaves" (:499-500)
   check (got.length == r.2.1)                               -- short read (:501-502)
   check (P.verifyRange r.1 got start stop p.root)           -- :503-505
